@@ -382,6 +382,47 @@ func randPubKey(r *Rng) *bchec.PublicKey {
 	return pub
 }
 
+// pubKeyAvoiding: a compressed public key whose hex form contains none of the given hex digits, i.e. a string that
+// is at the same time well-formed for another address format tried by DecodeAddress (cashaddr symbols exclude
+// 'b' and '1'). The x coordinate is drawn digit by digit; about every second x lies on the curve.
+func pubKeyAvoiding(r *Rng, avoid string) *bchec.PublicKey {
+	digits := []byte{}
+	for _, c := range []byte("0123456789abcdef") {
+		if !strings.ContainsRune(avoid, rune(c)) {
+			digits = append(digits, c)
+		}
+	}
+	for {
+		h := []byte{'0', byte(r.Pick('2', '3'))}
+		for i := 0; i < 64; i++ {
+			h = append(h, digits[r.Intn(len(digits))])
+		}
+		b, _ := hex.DecodeString(string(h))
+		if pub, err := bchec.ParsePubKey(b, bchec.S256()); err == nil {
+			return pub
+		}
+	}
+}
+
+// crossFormatPubKeys emits the constructor and decoder cases for such keys
+func crossFormatPubKeys(r *Rng, tier string, e func(op, cls string, args ...string)) {
+	n := 6
+	if tier == "thorough" {
+		n = 200
+	}
+	for _, avoid := range []string{"b1", "b1ace", "abcdef"} {
+		for i := 0; i < n; i++ {
+			pub := pubKeyAvoiding(r, avoid)
+			h := hex.EncodeToString(pub.SerializeCompressed())
+			for ni := range nets {
+				e("addr", "pubkey-xformat", "pk", itoa(ni), hx(pub.SerializeCompressed()))
+				e("dec", "pubkey-xformat", itoa(ni), hs(h))
+				e("dec", "pubkey-xformat", itoa(ni), hs(strings.ToUpper(h)))
+			}
+		}
+	}
+}
+
 func serPub(p *bchec.PublicKey, f int) []byte {
 	switch f {
 	case 0:
@@ -400,6 +441,7 @@ func init() {
 
 func genC01(r *Rng, tier string, emit func(Case)) {
 	e := func(op, cls string, args ...string) { emit(Case{op, cls, args}) }
+	crossFormatPubKeys(r, tier, e)
 	e("conc", "goroutines", "8", "1500", u64s(r.U64()&0xffff))
 	n := 400
 	if tier == "thorough" {
@@ -491,6 +533,7 @@ func caseVariant(r *Rng, s string) string {
 
 func genC02(r *Rng, tier string, emit func(Case)) {
 	e := func(op, cls string, args ...string) { emit(Case{op, cls, args}) }
+	crossFormatPubKeys(r, tier, e)
 	prefixes := []string{"bitcoincash", "simpleledger", "bchtest", "slptest", "bchreg", "slpreg", "bchsim", "foo", "bitcoincas"}
 	lens := []int{0, 1, 19, 20, 21, 24, 28, 31, 32, 33, 40, 48, 64, 65}
 	if tier == "thorough" {
